@@ -189,6 +189,9 @@ func (e *Engine) exec(g *G, f *Frame, instr ssa.Instruction) {
 		e.spawned = append(e.spawned, name)
 		if e.cfg.NoSpawn || e.noSpawn[name] {
 			e.ghostLog = append(e.ghostLog, "go "+name+" (not run)")
+			if sf, ok := fv.(*ssa.Function); ok && len(args) > 0 && len(sf.Params) > 0 {
+				e.makeGhost(args[0], sf.Params[0].Type(), 0)
+			}
 			return
 		}
 		ng := e.newG()
